@@ -122,6 +122,7 @@ type k2Sys struct {
 	// probe "queue-lock": the queue was modified while the harness held the queue's own mutex
 	probeMutated bool
 	probeNote    string
+	closeRoots   string
 }
 
 var k2LogOnce sync.Once
@@ -200,13 +201,13 @@ func (k *k2Sys) quiesce() []qsched.GoroutineInfo {
 	return b
 }
 
-// close tears an instance down so that none of its goroutines survives into the next one.
-// It returns false if that is impossible (e.g. the state lock was never released by its holder):
-// the process is then unfit for further instances and the caller retires it.
-func (k *k2Sys) close() bool {
+// close tears an instance down so that none of its goroutines survives into the next one: all gates
+// pass, the request channel is drained continuously (this dissolves a send-under-lock deadlock: teardown
+// only), the keeper is stopped. Whether that succeeded is decided at quiescence from wait reasons, never
+// from time. ok=false: a call or keeper.Stop() is blocked for good even so (note says which); the process
+// is then unfit for further instances and the caller retires it.
+func (k *k2Sys) close() (ok bool, note string) {
 	k.s.Deactivate()
-	// teardown only: dissolve a deadlocked instance by draining the request channel, so that
-	// blocked senders return, release the state lock and every goroutine can exit
 	drainDone := make(chan struct{})
 	var drainWG sync.WaitGroup
 	drainWG.Add(1)
@@ -220,33 +221,35 @@ func (k *k2Sys) close() bool {
 			}
 		}
 	}()
-	ok := true
-	for i := 0; i < 20000 && k.lifeOp != nil && !k.lifeOp.Done(); i++ {
-		time.Sleep(100 * time.Microsecond)
-	}
+	ok = true
+	blocked := k.quiesce()
 	if k.lifeOp != nil && !k.lifeOp.Done() {
-		ok = false
+		ok, note = false, k.lifeOp.Name+" has not returned although every gate is open"
 	}
 	if ok && k.sk.Started() {
-		done := make(chan struct{})
-		go func() { k.sk.Stop(); close(done) }()
-		select {
-		case <-done:
-		case <-time.After(3 * time.Second):
-			ok = false
+		sk := k.sk
+		stop := k.s.Start("keeper.Stop", func() (interface{}, error) { return nil, sk.Stop() })
+		blocked = k.quiesce()
+		if !stop.Done() {
+			ok, note = false, "keeper.Stop() does not return although every gate is open and the request channel is being drained"
 		}
 	}
-	for i := 0; ok && i < 20000 && k.inFlight() > 0; i++ {
-		time.Sleep(100 * time.Microsecond)
+	if ok && k.inFlight() > 0 {
+		ok, note = false, fmt.Sprintf("%d calls have not returned although every gate is open, the request channel is being drained and the keeper is stopped", k.inFlight())
 	}
-	if k.inFlight() > 0 {
-		ok = false
+	if !ok {
+		roots, _ := k2DeadlockRoots(blocked)
+		if len(roots) == 0 {
+			roots = []string{"state-lock-never-released"}
+		}
+		note += "; blocked: " + strings.Join(roots, "+")
+		k.closeRoots = strings.Join(roots, "+")
 	}
 	close(drainDone)
 	drainWG.Wait()
 	k.sk.workerPool.Release()
 	VerifGate = nil
-	return ok
+	return ok, note
 }
 
 // ---------------------------------------------------------------- actions
@@ -384,7 +387,9 @@ func (k *k2Sys) do(a k2Action) []qsched.GoroutineInfo {
 		case "infos":
 			fn = func() (interface{}, error) { return sk.WorkSpaceInfos(engine.SFMining | engine.SFReady) }
 		case "qualities":
-			fn = func() (interface{}, error) { return sk.GetQualities(context.Background(), engine.SFMining, pocutil.Hash{}) }
+			fn = func() (interface{}, error) {
+				return sk.GetQualities(context.Background(), engine.SFMining, pocutil.Hash{})
+			}
 		case "qualities-reader":
 			fn = func() (interface{}, error) {
 				ctx, cancel := context.WithCancel(context.Background())
@@ -578,7 +583,7 @@ func (k *k2Sys) stateKey(blocked []qsched.GoroutineInfo, hist string) string {
 	for i, ws := range k.ws {
 		m := k.model[i]
 		via := ""
-		if m.Used && !m.AskedAny {
+		if m.Used && !m.AskedMine {
 			via = m.StopVia // decides the site a later sticky-stop violation is reported under
 		}
 		fmt.Fprintf(&sb, "%s:%s u=%v m=%s/%v/%v ask=%v/%v/%s idx=", k2Names[i], ws.state, ws.using, m.State, m.Used, m.Deleted, m.AskedAny, m.AskedMine, via)
